@@ -3,7 +3,7 @@ CONSTANTS
   MaxLen = 4
   Alphabet = {"..", ".", "", "sub", "in.txt", "rootx", "root", "B", "A"}
   Base <- BaseMC
-  Pres = {"rel", "abs0", "absW"}
+  Pres = {"rel"}
   Kinds = {"fwd"}
   RootForms = {"plain"}
   Chains = {TRUE, FALSE}
